@@ -10,7 +10,11 @@ declare -A MAP=(
  [C11-park-calls-with-done-futures]="C11" [C12-unguarded-set-exception-on-cancelled-dependent]="C12" [C12-percall-threads-daemon]="C12"
  [C13-match-found-flag-hoisted]="C13" [C14-skip-launch-when-ready-file-exists]="C14" [C15-argspec-cache-by-qualname]="C15"
  [C16-shlex-quote-cwd]="C16" [C17-stale-reply-on-init]="C17" [C18-filemode-resource-dict-not-copied]="C18"
- [C19-shared-executor-kwargs]="C10 C19" [C19-base-init-after-default-cores]="C19" [C20-dedup-edges-per-node-pair]="C20"
+ [C19-shared-executor-kwargs]="C10 C19" [C01-preset-overrides-explicit-keyword]="C01 C15" [C04-dispatcher-reaps-failed-thread]="C04"
+ [C06-forward-cancelled-waiting-task]="C06" [C08-ipykernel-regex-loosened]="C08" [C09-listdir-once-per-worker]="C09"
+ [C10-falsy-percall-value-falls-back]="C10" [C11-respawn-dead-worker]="C11" [C13-function-pickle-memo-by-id]="C13 C08"
+ [C14-reuse-leftover-input-file]="C14" [C15-preset-memory-aliased-by-fast-path]="C15" [C16-parse-arguments-shared-default-dict]="C16"
+ [C17-second-init-treated-as-call]="C17" [C18-launch-cores-max-of-percall-and-default]="C18 C10" [C20-list-recursion-drops-label]="C20" [C19-base-init-after-default-cores]="C19" [C20-dedup-edges-per-node-pair]="C20"
 )
 for S in $(ls seeded | sort); do
   [ -n "${MAP[$S]:-}" ] || { echo "seed=$S : no mapping"; continue; }
